@@ -4,7 +4,7 @@
 
 use crate::engine::{Knobs, SITES, SITES_IN_LOCK};
 use crate::mtypes::*;
-use crate::rng::Rng;
+use simcore::rng::Rng;
 
 #[derive(Clone, Debug)]
 pub struct GenCfg {
